@@ -28,6 +28,8 @@ import FV.Model.Compile
 import FV.Proofs.Compile
 import FV.Spec.Compile
 import FV.Proofs.CompileF
+import FV.Spec.ConstValue
+import FV.Proofs.CompileG
 import FV.Generated.Census11
 
 namespace FV.C11
@@ -190,6 +192,19 @@ theorem c11_unknown_extends_accepted_counterexample :
                              services := [⟨"Orphan".toList, some "NoSuchService".toList, []⟩] },
                    incs := [] } = .ok () := by decide
 
+/-- Constants too: a constant value (or field default) that FITS its declared type — `Fits`,
+FV/Spec/ConstValue.lean: literals of the right base type, lists/sets/maps of fitting values,
+an enum number, a struct literal whose keys are strings and whose values fit the fields they
+name, an identifier that names an existing constant or enum value — goes through the Go
+generator's `generateConstantValue` without a panic: every type assertion `value.(T)` finds the
+dynamic type it asserts, `ContextFromIdentifier` / `FindStruct` / `KeyToString` find their
+target (fuel = nesting depth of the value suffices). Nothing in frugal VALIDATES that a value
+fits (finding `unchecked-semantic-errors`): for a value that does not, the model — like the
+code — panics (`example`s below), which main.go reports as `Failed to generate`. -/
+theorem c11_fitting_constant_generates (ctx : Ctx) (t : Ty) (v : Val) (h : Fits ctx t v) :
+    ∃ n, ∀ fuel, n ≤ fuel → genConst ctx fuel t v = .ok () :=
+  genConst_ok_of_fits ctx h
+
 /-- The census of syntactically partial operations of `main.go` and `compiler/**`
 (regenerated from the source on every check) has no unclassified site: each is mapped to the
 model clause that covers it or to the reason it is guarded / unreachable
@@ -239,6 +254,12 @@ example : underlying exChain (typedefLimit exChain + 2) (.named "b".toList) = .o
 example : snakeToCamel "foo__bar".toList = .ok "FooBar".toList := by decide
 example : snakeToCamel "_x".toList = .ok "X".toList := by decide
 example : title "user_id".toList = .ok "UserID".toList := by decide
+-- constants: a fitting struct literal generates; a string constant given a number is the type assertion failing
+example : genConst exChain 5 (.named "foo__bar".toList) (.map [(.str "_x".toList, .list [.int 1, .int 2])]) = .ok () := by decide
+example : Fits exChain (.named "a".toList) (.int 5) :=
+  .base (n := "i64".toList) (by unfold Underlies; decide) (by decide) (by unfold BaseFits; decide)
+example : genConst exChain 5 (.named "string".toList) (.int 5) = .panic .typeAssert := by decide
+example : genConst exChain 5 (.named "i32".toList) (.ident "no_such".toList) = .panic .explicit := by decide
 example : lowerFirst [] = .panic .index := by decide
 example : includeNameToReference "..".toList = .panic .index := by decide
 
